@@ -572,6 +572,46 @@ def run_sequence(ctx, seq, lines_cases, lines_meta, sender_cases, sender_meta, j
                               % (vname, what, vlines[:6]), case=case,
                               signature=dict(component="retrieve", defect="depends_on_line_terminators", variant=vname))
                 break
+    # ---- parsing depends only on the output: parse, mutate the result in place, parse again ---
+    if rerr is None and got:
+        import copy
+        from syne_tune.report import retrieve as _retrieve2
+        try:
+            first = _retrieve2(lines)
+            snap = copy.deepcopy(first)
+
+            def mutate(x):
+                if isinstance(x, dict):
+                    for v in list(x.values()):
+                        mutate(v)
+                    if x:
+                        x.pop(next(iter(x)))
+                    x["_mutated_by_receiver"] = 1
+                elif isinstance(x, list):
+                    for v in x:
+                        mutate(v)
+                    x.append("_mutated_by_receiver")
+            for d_ in first:
+                mutate(d_)
+
+            def ids(x, acc):
+                if isinstance(x, (dict, list)):
+                    acc.add(id(x))
+                    for v in (x.values() if isinstance(x, dict) else x):
+                        ids(v, acc)
+                return acc
+            second = _retrieve2(lines)
+            shared = ids(first, set()) & ids(second, set())
+            differs = not (len(second) == len(snap) and all(same(a, b) for a, b in zip(second, snap)))
+            if differs or shared:
+                ctx.violation("property", "retrieve on the same captured output twice in one process: after the receiver changed the first "
+                              "result in place (pop / annotate / append), the second parse %s: first parse was %r, second parse is %r"
+                              % ("differs from what the output says" if differs else "shares %d mutable objects with the first" % len(shared),
+                                 snap[:2], second[:2]), case=case,
+                              signature=dict(component="retrieve", defect="result_depends_on_earlier_parse"))
+        except Exception as e:  # noqa
+            ctx.violation("property", "retrieve raised %s when the same captured output was parsed a second time" % type(e).__name__,
+                          case=case, signature=dict(component="retrieve", defect="result_depends_on_earlier_parse", exception=type(e).__name__))
     # ---- correspondence with the model (evaluated in Coq below) ----------------------------
     if len(text) <= 2500 and (got is None or len(groups) == len(got)):
         translated = text.replace("\r\n", "\n").replace("\r", "\n")
